@@ -96,7 +96,7 @@ def compile_direction(chk, wd, gen, only=None):
             chk.add("compiled:" + path)
             rep = {"dir": "compile", "fam": c["fam"], "toks": toks, "path": path, "text": o["text"], "expected": exp, "observed": res}
             if "panic" in res:
-                k = lim.key("panic:compile:%s:%s" % (path, res["panic"]["loc"].replace("/repo/", "")))
+                k = lim.key("panic:compile:%s:%s" % (path, lib.norm_loc(res["panic"]["loc"])))
                 if k:
                     chk.report(k, "compiling with %s panics: %s\n%s" % (path, res["panic"]["msg"], o["text"]), rep)
                 continue
@@ -154,7 +154,7 @@ def decompile_direction(chk, wd, gen, only_row=None, quick=False):
             if "tool" in res:
                 raise lib.ToolError("cannot build the %s container: %s" % (path, res["tool"]))
             if "panic" in res:
-                k = lim.key("panic:decompile:%s:%s" % (path, res["panic"]["loc"].replace("/repo/", "")))
+                k = lim.key("panic:decompile:%s:%s" % (path, lib.norm_loc(res["panic"]["loc"])))
                 if k:
                     chk.report(k, "decompiling %s panics: %s" % (what, res["panic"]["msg"]), rep)
                 continue
